@@ -1,6 +1,8 @@
 (* Obligations relating the text regenerated from config/core.py on this run to the model the
    theorems are about.  Compiled in build/C18/gen against Gen.C18_Extracted. *)
+From Coq Require Import List String.
 From AV Require Import lib.Tree model.C18_Model proofs.C18_Proofs.
+Import ListNotations.
 From Gen Require Import C18_Extracted.
 
 Theorem C18_link_deep_update : deep_update = du.
@@ -24,3 +26,20 @@ Print Assumptions C18_link_machine.
 Theorem C18_link_models_frozen : all_models_frozen = true.
 Proof. reflexivity. Qed.
 Print Assumptions C18_link_models_frozen.
+
+(* round 2: the validator stage list and the frozen flags regenerated from the source are the repaired ones *)
+Theorem C18_link_stage_list : extracted_stages = repaired_stages.
+Proof. reflexivity. Qed.
+Print Assumptions C18_link_stage_list.
+
+Theorem C18_link_failed_load_leaves_unset_on_extracted_stages :
+  forall d frozen f k fk,
+    snd (step_g d extracted_stages frozen None (LoadG f k fk)) <> OkUnit ->
+    fst (step_g d extracted_stages frozen None (LoadG f k fk)) = None.
+Proof. intros. apply failed_load_leaves_unset_general; [reflexivity|assumption]. Qed.
+Print Assumptions C18_link_failed_load_leaves_unset_on_extracted_stages.
+
+Theorem C18_link_every_owner_frozen :
+  extracted_frozen [] = true /\ extracted_frozen ["weather"%string] = true /\ extracted_frozen ["emissions"%string] = true.
+Proof. repeat split; reflexivity. Qed.
+Print Assumptions C18_link_every_owner_frozen.
